@@ -108,7 +108,8 @@ pub fn gen_jitter_spec(rng: &mut Prng, prop: &str, allowed: &[CF], c16_bias: boo
         _ => 80,
     };
     let max_stretch = rng.range(1, 12) as u32;
-    let (mut clock, marks) = gen_clock(rng, &ClockCfg { n, faults, rate_per_1000: rate, max_stretch });
+    let long_stuck = rng.chance(1, 60);
+    let (mut clock, marks) = gen_clock(rng, &ClockCfg { n, faults, rate_per_1000: rate, max_stretch, long_stuck });
     // skew between clones: each fork of the clock sees its own offset
     if rng.chance(1, 3) {
         clock.fork_skews = (0..8).map(|_| if rng.chance(1, 2) { rng.below(1 << 20) } else { rng.u64() }).collect();
@@ -467,7 +468,7 @@ impl Scenario for C12 {
         run_jitter_history(spec, st, &JitterRunCfg { prop: "C12", c16: false })
     }
     fn rule(&self) -> String {
-        "Each run: a JitterRng over a scripted clock (SimClock). The script is drawn from a per-run profile (start value, base delta, jitter amplitude) with a per-run random subset of the clock-fault catalogue (stall, const_delta, ramp, backward, jump_pos31, jump_neg31, jump_2p32, zero_reading, coarse100, tiny_var, wrap_u64, big_pause) placed inside collections at a per-run rate, optional skew between clones; rounds in 1..=255 (default 64 when unset); 1..24 operations from next_u32 / next_u64 / fill_bytes(0..40) / timer_stats(bool) / set_rounds / clone / clone_from into a used generator. After EVERY operation the returned value/bytes and the cumulative number of timer readings are compared with an independent executable model of the documented Jitterentropy 2.1.0 procedure run on the same readings. distinct_nontrivial = distinct (set of fault kinds whose marked reading was consumed inside the operation, rounds bucket, op kind, half flag) signatures.".into()
+        "Each run: a JitterRng over a scripted clock (SimClock). The script is drawn from a per-run profile (start value, base delta, jitter amplitude) with a per-run random subset of the clock-fault catalogue (stall, const_delta, ramp, backward, jump_pos31, jump_neg31, jump_2p32, zero_reading, coarse100, tiny_var, wrap_u64, big_pause; in one run out of 60 also long_stuck: 3100..9000 consecutive readings at a perfectly constant rate) placed inside collections at a per-run rate, optional skew between clones; rounds in 1..=255 (default 64 when unset); 1..24 operations from next_u32 / next_u64 / fill_bytes(0..40) / timer_stats(bool) / set_rounds / clone / clone_from into a used generator. After EVERY operation the returned value/bytes and the cumulative number of timer readings are compared with an independent executable model of the documented Jitterentropy 2.1.0 procedure run on the same readings. distinct_nontrivial = distinct (set of fault kinds whose marked reading was consumed inside the operation, rounds bucket, op kind, half flag) signatures.".into()
     }
     fn assumptions(&self) -> Vec<String> {
         vec![
@@ -488,6 +489,7 @@ impl Scenario for C12 {
             "probe:timer_stats",
             "probe:fork",
             "probe:clone_from",
+            "fault:long_stuck",
             "fault:stall",
             "fault:backward",
             "fault:jump_2p32",
